@@ -192,6 +192,10 @@ class FuncInfo:
     def is_static(self) -> bool:
         return any(isinstance(d, ast.Name) and d.id == "staticmethod" for d in self.node.decorator_list)
 
+    def is_property(self) -> bool:
+        return any((isinstance(d, ast.Name) and d.id in ("property", "cached_property")) or
+                   (isinstance(d, ast.Attribute) and d.attr == "cached_property") for d in self.node.decorator_list)
+
     def is_classmethod(self) -> bool:
         return any(isinstance(d, ast.Name) and d.id == "classmethod" for d in self.node.decorator_list)
 
@@ -242,6 +246,27 @@ class ClassInfo:
             if name in c.methods:
                 return c.methods[name]
         return None
+
+    def is_dataclass(self) -> bool:
+        for d in self.node.decorator_list:
+            f = d.func if isinstance(d, ast.Call) else d
+            if (attr_chain(f) or "").split(".")[-1] == "dataclass":
+                return True
+        return False
+
+    def dataclass_fields(self):
+        """[(name, default-expression or None)] of a @dataclass (bases first); None for ordinary classes"""
+        if not any(c.is_dataclass() for c in self.mro()):
+            return None
+        out = []
+        for c in reversed(self.mro()):
+            for st in c.node.body:
+                if isinstance(st, ast.AnnAssign) and isinstance(st.target, ast.Name):
+                    if "ClassVar" in unparse(st.annotation):
+                        continue
+                    out = [(n, d) for n, d in out if n != st.target.id]
+                    out.append((st.target.id, st.value))
+        return out
 
     def is_subclass_of(self, other: "ClassInfo") -> bool:
         return other in self.mro()
@@ -581,6 +606,25 @@ def analysis_functions(prj: "Project", roots) -> list:
                 if t.qual not in seen:
                     todo.append(prj.func(t.qual))
     return sorted(out, key=lambda f: f.qual)
+
+
+def with_helpers(prj: "Project", fi) -> list:
+    """fi's view plus the views of the newly extracted helpers (functions that are not part of the baseline tree)
+    still called from it, transitively - the code a rule anchored in fi has to look at"""
+    from .inline import baseline_names
+    base = baseline_names()
+    seen, out, todo = set(), [], [fi]
+    while todo:
+        f = todo.pop()
+        if f.qual in seen:
+            continue
+        seen.add(f.qual)
+        out.append(f)
+        for c in f.calls():
+            tg, kind = prj.resolve_call(f, c)
+            if kind in ("direct", "self", "ctor") and len(tg) == 1 and tg[0].qual not in base and tg[0].qual not in seen:
+                todo.append(prj.func(tg[0].qual))
+    return out
 
 
 BUILTIN_NAMES = {
